@@ -2,6 +2,10 @@
     one per model layer, which contain nothing but [Theorem … exact …] and
     [Print Assumptions]. *)
 From HV Require Export PropsRing.
+From HV Require Export PropsRingConc.
 From HV Require Export PropsInbox.
+From HV Require Export PropsProc.
 From HV Require Export PropsWire.
 From HV Require Export PropsCluster.
+From HV Require Export PropsEvents.
+From HV Require Export PropsTree.
